@@ -102,6 +102,12 @@ def install(w):
     M['cmp::min'] = int_min_f
     M['cmp::max'] = int_max_f
 
+    def add_assign(ex, c, a):
+        r = a[0]
+        r.set(ex.binop('Add', r.get(), deref(a[1])))
+        return unit()
+    M['<_ as AddAssign>::add_assign'] = add_assign
+
     def abs_diff(ex, c, a):
         x, y = a
         uty = 'u' + x.ty[1:] if is_signed(x.ty) else x.ty
